@@ -400,16 +400,34 @@ pub fn exec(ctx: &mut Ctx, op: &str, p: &mut Toks) -> String {
                 None => "err reject".into(),
             }
         }
-        "t.addnested" => {
+        "t.addnested" | "t.subnested" | "t.mulnested" => {
             let k = p.nat();
             let a = p.tensors(k);
             let k2 = p.nat();
             let b = p.tensors(k2);
+            let which = op;
             let res = try_run(|| {
                 let mut x = Tensor::nested(a.clone());
-                x.add_inplace(&Tensor::nested(b.clone()));
+                match which {
+                    "t.addnested" => x.add_inplace(&Tensor::nested(b.clone())),
+                    "t.subnested" => x.sub_inplace(&Tensor::nested(b.clone())),
+                    _ => x.mul_inplace(&Tensor::nested(b.clone())),
+                }
                 x.unnested()
             });
+            // element-wise on every member of the list (equal lengths and equal member shapes)
+            if k == k2 && a.iter().zip(b.iter()).all(|(x, y)| x.shape == y.shape && shape_matches_data(x) && shape_matches_data(y)) {
+                let f = |p: f32, q: f32| match which { "t.addnested" => p + q, "t.subnested" => p - q, _ => p * q };
+                let ok = match &res {
+                    Some(r) => r.len() == a.len() && (0..a.len()).all(|i| {
+                        let expect: Vec<f32> = flat_any(&a[i]).iter().zip(flat_any(&b[i]).iter()).map(|(p, q)| f(*p, *q)).collect();
+                        r[i].shape == a[i].shape && same_bits(&flat_any(&r[i]), &expect)
+                    }),
+                    None => false,
+                };
+                ctx.oracle(ok, "nested-elementwise", "add / subtract / multiply on nested lists must be the element-wise IEEE result on every member, shapes unchanged",
+                    format!("{} on lists of {} tensors, first {}", which, k, a.first().map(qt).unwrap_or_default()), res.as_ref().map(|r| r.iter().map(rt).collect::<Vec<_>>().join(" ")).unwrap_or("panic".into()), "member-wise result".into());
+            }
             match res {
                 Some(r) => format!("ok {}", r.iter().map(rt).collect::<Vec<_>>().join(" ")),
                 None => "err shape".into(),
